@@ -34,6 +34,9 @@ def shapes(tier):
     for nb in range(1, nb_max + 1):
         for mode in ("idx", "arr"):
             out.append({"fn": "batch_tasks", "n_batches": nb, "mode": mode})
+    # call history (bounded sizes): the same split requested twice with different start indices
+    for nb in ((1, 2, 3) if tier == "quick" else (1, 2, 3, 4, 5)):
+        out.append({"fn": "batch_tasks", "n_batches": nb, "mode": "idx" if nb % 2 else "arr", "history": True})
     for src in ("file", "n_prior", "idx"):
         for nb in ([None, 1, 3] if tier == "quick" else [None, 1, 2, 3, 5]):
             for psize in ([1, 3] if tier == "quick" else [0, 1, 2, 4]):
@@ -71,8 +74,15 @@ def _spec_tasks(sink, path, tasks, lo, n, nb, mode, extra_args, tag):
 
 
 def _model(m, n, lo, nb, mode):
-    return {"n_tasks": int(core.model_value(m, n)), "start_idx": int(core.model_value(m, lo)) if core.is_sym(lo) else int(lo),
-            "n_batches": nb, "mode": mode}
+    out = {"n_tasks": int(core.model_value(m, n)), "start_idx": int(core.model_value(m, lo)) if core.is_sym(lo) else int(lo),
+           "n_batches": nb, "mode": mode}
+    try:
+        v = m.eval(z3.Int("start_idx_before"), model_completion=False)
+        if z3.is_int_value(v):
+            out["start_idx_before"] = v.as_long()
+    except Exception:
+        pass
+    return out
 
 
 def run_shape(shape, tier):
@@ -89,6 +99,13 @@ def run_shape(shape, tier):
             core.assume(n >= 1)
             core.assume(lo >= 0)
             arr = _Seq() if mode == "arr" else None
+            if shape.get("history"):
+                core.assume(n <= 8)
+                core.assume(lo <= 6)
+                lo0 = core.integer("start_idx_before")
+                core.assume(lo0 >= 0)
+                core.assume(lo0 <= 6)
+                st.utils.batch_tasks(n, nb, arr=arr, args=(A1, A2), start_idx=lo0)
             tasks = st.utils.batch_tasks(n, nb, arr=arr, args=(A1, A2), start_idx=lo)
             return n, lo, tasks
 
@@ -192,12 +209,17 @@ def _run_worker_shape(shape, res, sink):
             idx = kw["samples_idx"]
             # slices of the index array, in order, concatenating to the array itself
             flat = []
+            heads_ok = all(isinstance(t[0], symnp.SymArray) for t in tasks)      # slices of the index array itself
             for t in tasks:
-                flat.extend(list(t[0].a))
-            same = len(flat) == len(idx) and all(a is b or (core.is_sym(a) and core.is_sym(b) and z3.eq(a.e, b.e)) for a, b in zip(flat, idx.a))
-            nonempty = all(len(t[0]) > 0 for t in tasks)
+                flat.extend(list(t[0].a) if isinstance(t[0], symnp.SymArray) else [None])
+            same = heads_ok and len(flat) == len(idx) and all(a is b or (core.is_sym(a) and core.is_sym(b) and z3.eq(a.e, b.e)) for a, b in zip(flat, idx.a))
+            nonempty = heads_ok and all(len(t[0]) > 0 for t in tasks)
             sink.check(path, "rw.idx_cover", core.SB(z3.BoolVal(same and nonempty)), site="run_worker",
-                       describe=lambda m: {"rw_idx": [int(core.model_value(m, c)) for c in idx.a], "n_batches": nb, "pool_size": psize})
+                       describe=lambda m: {"rw_idx": [int(core.model_value(m, c)) for c in idx.a], "n_batches": nb, "pool_size": psize},
+                       # counterexample models: distinct row numbers in a non-monotone order, as the shuffled samplers pass them
+                       prefer=([z3.Distinct(*[core.lift(c) for c in idx.a])] if len(idx.a) > 1 else []) +
+                              [core.lift(idx.a[i]) > core.lift(idx.a[i + 1]) for i in range(0, len(idx.a) - 1, 2)] +
+                              [core.lift(idx.a[i]) < core.lift(idx.a[i + 1]) for i in range(1, len(idx.a) - 1, 2)])
         else:
             _spec_tasks(sink, path, tasks, 0, n, eff_nb, "idx", ("lib.hdf5", "HELPER"), "rw.")
         # every task got its own child generator, pairwise distinct streams, spawned from the parent
@@ -263,6 +285,10 @@ def replay(cand):
     if mode == "arr" and lo + n > 100000:
         return {"reproduced": False, "detail": "model too large to realise as an array"}
     try:
+        if cand["shape"].get("history"):
+            # the shape's call history: the same split was requested before with another start index
+            for lo0 in ([m["start_idx_before"]] if "start_idx_before" in m else []) + [3, 0]:
+                batch_tasks(n, nb, arr=(list(range(1000, 1000 + lo0 + n + 3)) if mode == "arr" else None), args=("a", "b"), start_idx=lo0)
         tasks = batch_tasks(n, nb, arr=arr, args=("a", "b"), start_idx=lo)
     except Exception as e:
         return {"reproduced": True, "detail": "batch_tasks(%d,%d,start_idx=%d) raised %r" % (n, nb, lo, e)}
